@@ -12,7 +12,13 @@ From Coq Require Import List Arith Bool.
 Import ListNotations.
 Require Import Aiuti.CaseLib Aiuti.Keys AiutiGen.T_KeyExpr.
 
-Inductive case := C14 (kind : mkind) (prefill : bool) (evs : list ev) (observed : list obs).
+Inductive case :=
+| C14 (kind : mkind) (prefill : bool) (evs : list ev) (observed : list obs)
+(* the wrapped function returns an identity-less value (None, 0, '', False): which
+   invocation produced a returned value is not observable, only the number of invocations
+   per call is.  Retaining stores only (the decorator's dict or an unbounded user mapping,
+   not pre-populated), histories of calls only. *)
+| C14N (kind : mkind) (evs : list ev) (ninvs : list nat).
 
 Definition nmem (x : nat) (l : list nat) : bool := existsb (Nat.eqb x) l.
 Definition nsubset (a b : list nat) : bool := forallb (fun x => nmem x b) a.
@@ -30,6 +36,11 @@ Definition agree (c : case) : bool :=
       match key_expr_opt, cache_init_opt with
       | Some e, Some m => list_eqb obs_eqb (run e m kind pf evs) observed
       | _, _ => false          (* fail closed: untranslatable source *)
+      end
+  | C14N kind evs ninvs =>
+      match key_expr_opt, cache_init_opt with
+      | Some e, Some m => list_eqb Nat.eqb (map (fun o => fst (fst o)) (run e m kind false evs)) ninvs
+      | _, _ => false
       end
   end.
 
@@ -89,18 +100,36 @@ Fixpoint mon (kind : mkind) (evs : list ev) (observed : list obs)
   | _, _ => false
   end.
 
+(* retaining store, calls only: a call invokes the function iff no earlier call had the same
+   arguments (props/C14.v same_args_share) *)
+Fixpoint mon_n (evs : list ev) (ninvs : list nat) (hist : list sig) : bool :=
+  match evs, ninvs with
+  | [], [] => true
+  | Call s :: evs', ninv :: r =>
+      Nat.eqb ninv (if existsb (fun s' => same_args s' s) hist then 0 else 1) &&
+      mon_n evs' r (hist ++ [s])
+  | _, _ => false
+  end.
+
+Definition is_call (x : ev) : bool := match x with Call _ => true | _ => false end.
+Definition retaining (k : mkind) : bool :=
+  match k with KDefault | KUser None => true | KUser (Some _) => false end.
+
 Definition ok (c : case) : bool :=
   match c with
   | C14 kind pf evs observed =>
       mon kind evs observed [] (match kind with KDefault => [] | KUser _ => map snd (init_user pf) end) 0
+  | C14N kind evs ninvs =>
+      negb (retaining kind && forallb is_call evs) || mon_n evs ninvs []
   end.
 
-Definition is_call (x : ev) : bool := match x with Call _ => true | _ => false end.
 Definition nontrivial (c : case) : bool :=
   match c with
   | C14 kind pf evs observed =>
       (2 <=? length (filter is_call evs)) &&
       existsb (fun o => match o with (1, _, _) => true | _ => false end) observed
+  | C14N kind evs ninvs =>
+      retaining kind && forallb is_call evs && existsb (Nat.eqb 0) ninvs && existsb (Nat.eqb 1) ninvs
   end.
 
 Definition verdict := verdict3 agree ok nontrivial.
